@@ -654,3 +654,77 @@ Proof.
     rewrite Hload, E2. reflexivity.
   - rewrite rows_of_app. unfold rows_of. reflexivity.
 Qed.
+
+(* ------------------------------------------------------------------ C02 over continuation chains *)
+
+Definition resolves_in (rows : list orow) (T : string) (i : Z) : Prop :=
+  exists row', In row' rows /\ fst row' = T /\ orow_id row' = [i].
+
+Lemma written_In_iff T o i : In i (written T o) <-> resolves_in o T i.
+Proof.
+  split; [apply written_In|].
+  intros (r & Hr & Ht & Hi). unfold written. apply in_flat_map. exists r. split; [exact Hr|].
+  rewrite Ht, String.eqb_refl, Hi. left. reflexivity.
+Qed.
+
+Lemma resolves_in_app_l a b T i : resolves_in a T i -> resolves_in (a ++ b) T i.
+Proof. intros (r & Hr & H). exists r. split; [apply in_or_app; auto|exact H]. Qed.
+Lemma resolves_in_app_r a b T i : resolves_in b T i -> resolves_in (a ++ b) T i.
+Proof. intros (r & Hr & H). exists r. split; [apply in_or_app; auto|exact H]. Qed.
+
+(* every reference written anywhere in a chain of runs resolves to a row written by the same
+   run or by an earlier run of the chain ([prev] = rows of the runs before this chain) *)
+Theorem hist_no_dangling e stmts : forall ks c0 s0 rowss prev,
+  start_ok s0 -> Bd s0 ->
+  (forall T, hidden T = false -> Permutation (written T prev) (Zseq 1 (Z.to_nat (last_id s0 T)))) ->
+  hist e stmts ks c0 s0 = Ok rowss ->
+  forall row n T i, In row (concat rowss) -> In (n, ORef T i) (snd row) -> hidden T = false ->
+    resolves_in (prev ++ concat rowss) T i.
+Proof.
+  induction ks as [|k rest IH]; intros c0 s0 rowss prev Hs0 HB Hprev H row n T i Hr Hin HT;
+    cbn [hist] in H; [injection H as <-; destruct Hr|].
+  dbind H as s.
+  assert (HJ0 : J s0).
+  { split; [exact HB|]. destruct Hs0 as (_ & _ & _ & Ho). intros ? ? ? ? Hx. rewrite Ho in Hx. destruct Hx. }
+  destruct (iterations_J _ _ _ _ _ _ E HJ0) as [HJs _].
+  destruct (ids_dense_run _ _ _ _ _ _ Hs0 E) as [Hok HD].
+  (* references of this run *)
+  assert (Hthis : forall row n T i, In row (rows_of s) -> In (n, ORef T i) (snd row) -> hidden T = false ->
+                  resolves_in (prev ++ rows_of s) T i).
+  { intros row1 n1 T1 i1 Hr1 Hin1 HT1. unfold rows_of in Hr1. apply in_rev in Hr1.
+    destruct (no_dangling_run _ _ _ _ _ _ Hs0 HB E row1 n1 T1 i1 Hr1 Hin1 HT1) as [Hold|(r' & Hr' & Hk)].
+    - apply resolves_in_app_l. apply written_In_iff.
+      apply (Permutation_in _ (Permutation_sym (Hprev T1 HT1))). apply Zseq_In. lia.
+    - apply resolves_in_app_r. exists r'. split; [unfold rows_of; rewrite <- in_rev; exact Hr'|exact Hk]. }
+  destruct rest as [|k2 rest2].
+  - injection H as <-. cbn [concat] in *. rewrite app_nil_r in *. eapply Hthis; eassumption.
+  - dbind H as c1. dbind H as tl0. injection H as <-. cbn [concat] in Hr |- *.
+    apply in_app_or in Hr. destruct Hr as [Hr|Hr].
+    + rewrite app_assoc. apply resolves_in_app_l. eapply Hthis; eassumption.
+    + rewrite app_assoc.
+      eapply (IH true (load e c1) tl0 (prev ++ rows_of s)); try eassumption.
+      * destruct Hok as (_ & _ & Hnn & _). apply load_start_ok. intros U.
+        rewrite (save_ids _ _ E0). apply (Hnn U).
+      * eapply load_Bd; [exact (J_Bd _ HJs)|exact E0].
+      * intros U HU. rewrite (resume_after_highest e _ _ U E0).
+        destruct (HD U) as [Hle HP]. specialize (HP HU).
+        unfold written. rewrite flat_map_app. fold (written U prev). fold (written U (rows_of s)).
+        replace (Z.to_nat (last_id s U)) with (Z.to_nat (last_id s0 U) + Z.to_nat (last_id s U - last_id s0 U))%nat.
+        -- rewrite Zseq_app. apply Permutation_app; [apply Hprev; exact HU|].
+           destruct Hs0 as (_ & _ & Hnn0 & _). specialize (Hnn0 U).
+           replace (1 + Z.of_nat (Z.to_nat (last_id s0 U))) with (last_id s0 U + 1) by lia.
+           eapply Permutation_trans; [apply written_rev|exact HP].
+        -- destruct Hs0 as (_ & _ & Hnn0 & _). specialize (Hnn0 U). lia.
+Qed.
+
+(* C02 over any chain of continuation runs of a fresh dataset *)
+Theorem no_dangling_history r ks rowss :
+  run_history r ks None = Ok rowss ->
+  forall row n T i, In row (concat rowss) -> In (n, ORef T i) (snd row) -> hidden T = false ->
+    resolves_in (concat rowss) T i.
+Proof.
+  intros H row n T i Hr Hin HT. rewrite run_history_hist in H.
+  apply (hist_no_dangling _ _ _ _ _ _ [] (init_start_ok _) (init_Bd _)) with (row := row) (n := n) (T := T) (i := i) in H;
+    try assumption.
+  intros U _. cbn. unfold last_id. cbn. constructor.
+Qed.
